@@ -13,7 +13,9 @@ Spec format (plain JSON)
                 ['f', idx, cols, rows]             DataFrame; rows[i][j] = float or None; cols = labels (all str or all int; may repeat)
                 both may carry a 5th element, a dict of options: {'unit': 's'|'ms'|'us'|'ns'} = resolution of the DatetimeIndex,
                 {'intcols': [j, ..]} = these frame columns are int64 (no NaN in them)
-                ['a', dtype, shape, flat]          bare numpy array (row-major, None = NaN)
+                ['a', dtype, shape, flat]          bare numpy array (row-major, None = NaN); a 5th element {'view': 'c'|'s2'|'s3'|'t'} makes it a view of
+                                                   spec['buffer'] = [dtype, cells] that starts at the buffer's first element (contiguous / every 2nd, 3rd element
+                                                   or row / transposed block); flat then lists the cells the view shows
                 ['v', x]                           a non-timeseries member (None / int / float / str)
                 ['list', [nodes]], ['tuple', [nodes]], ['dict', [[key, node], ..]], ['Dict', [[key, node], ..]]
     join      : 'ij' / 'inner' / 'oj' / ... / ['idx', positions(, unit)] (a DatetimeIndex) / ['series', positions(, unit)] (a Series used as index)
@@ -22,6 +24,8 @@ Spec format (plain JSON)
     flags     : share_index (equal stamps + equal unit -> one index object), same_objects (equal leaf specs -> ONE object, passed several times),
                 kw (df_* called with keyword arguments), columns_call (presync: columns= given at call time), default (presync(default=..)),
                 sig (shape of the decorated function)
+    session   : {'calls': [{'sel': .., 'call': <sync / presync spec>, 'edit': [leaf before, leaf after]}, ..]}: 'edit' = before this call the caller writes
+                the differing cell into the object built for that leaf, in place
 """
 import copy
 import datetime
@@ -64,6 +68,14 @@ ASSUMPTIONS = [
     'bare numpy arrays are checked separately from pandas objects (the quantifier says "separately"): 1-d and 2-d, 0-6 rows, int64/float64; '
     'with a fill method the NaN front padding and NaN cells are filled per column; when ffill would have to reach into a leading row that the '
     'truncation dropped, both NaN and that dropped value are accepted (the statement does not say whether lost rows are observations)',
+    'cell values are unique per object / column / stamp, of the order 100 .. 1300; in a minority of cases a timeseries is scaled to the order 1e-10 .. 1e-9 with cells that are '
+    'exactly 0.0 / -0.0 (an observation like any other; the sign of a zero is not compared), and a timeseries may be a revision of an earlier one: same stamps, one / every cell '
+    'moved by 1e-9 or 2.5e-4, i.e. by less than the tolerances of np.isclose - "keeps exactly its original value" is judged with ==',
+    'in a session the caller may write one float cell of one of his operands in place between two calls (value -> other value / NaN, NaN -> value): the calls that follow are judged '
+    'by the operand as it is then (the statement is about the inputs of each call); what earlier results show after the edit is not looked at',
+    'in one arrays case in eight every array is a view of ONE buffer starting at its first element (a[:n], a[::2][:n], a[::3][:n], row-strided and transposed blocks), so that '
+    'arrays of one case can agree in address, dtype and shape and still hold other cells; the buffer itself must come back unwritten',
+    'the decorated function is a plain function: pyg_base.wrapper refuses a functools.partial (no __name__), so "a partial with keywords" (brief class 24) cannot be decorated at all',
     'F11 (fill method + frame with >= 2 columns + a partially-NaN row whose row-wise as-of value differs from the per-column as-of value at some target stamp) '
     'is fixed in /repo and generated; PV_C03_EXCLUDE_F11=1 leaves the class out by construction for runs against a tree without that fix',
     'F14 (bare arrays whose common length is 0 while some array is longer: ts[-0:] kept the whole array) is fixed in /repo and generated; '
@@ -463,6 +475,8 @@ def _build_node(node):
         return pd.DataFrame(data, index=_mk_index(idx, _unit(node)), columns=list(cols))
     if t == 'a':
         dtype, shape, flat = node[1], node[2], node[3]
+        if _opts(node).get('view'):
+            return _build_view(node)
         if dtype == 'int':
             return np.array(flat, dtype='int64').reshape(shape)
         return np.array([_nan(x) for x in flat], dtype='float64').reshape(shape)
@@ -476,6 +490,46 @@ def _build_node(node):
         from pyg_base import Dict
         return Dict({k: _build(c) for k, c in node[1]})
     raise ValueError(node)
+
+
+_BUFFER = [None]     # while an arrays case with spec['buffer'] runs: the ONE numpy buffer every array of the case is a view of
+
+
+def _view_cells(buf, shape, layout):
+    """the cells (row-major) of the view `layout` of the 1-d buffer `buf` (a plain list); every layout starts at buf[0]:
+    'c' = buf[:n] / buf[:n*w].reshape(n, w); 's2', 's3' = every 2nd / 3rd element (row); 't' = buf[:n*w].reshape(w, n).T"""
+    n = shape[0]
+    w = shape[1] if len(shape) == 2 else 1
+    if layout == 'c':
+        return list(buf[:n * w])
+    if layout in ('s2', 's3'):
+        step = int(layout[1])
+        return [buf[i * step * w + j] for i in range(n) for j in range(w)]
+    if layout == 't':
+        return [buf[j * n + i] for i in range(n) for j in range(w)]
+    raise ValueError(layout)
+
+
+def _build_view(node):
+    """an array that is a VIEW of the buffer of the case: same start address and dtype as every other view, its own strides"""
+    import numpy as np
+    shape, layout = node[2], _opts(node)['view']
+    buf = _BUFFER[0]
+    n = shape[0]
+    w = shape[1] if len(shape) == 2 else 1
+    if layout == 'c':
+        res = buf[:n * w].reshape(shape)
+    elif layout in ('s2', 's3'):
+        step = int(layout[1])
+        res = buf[:n * step * w].reshape((n * step, w))[::step] if len(shape) == 2 else buf[::step][:n]
+    else:
+        res = buf[:n * w].reshape((w, n)).T
+    if not (list(res.shape) == list(shape) and (res.size == 0 or np.shares_memory(res, buf))):
+        raise AssertionError('harness: view %s is not a view' % (node,))
+    got = [None if x != x else x for x in res.reshape(-1).tolist()]
+    if got != list(node[3]):
+        raise AssertionError('harness: view %s holds %s' % (node, got))
+    return res
 
 
 def _leaf_objects(node, obj):
@@ -647,7 +701,7 @@ def _sketch(node):
     if t == 'f':
         return 'F%s%s%s' % (''.join(str(c) for c in node[2]) if all(isinstance(c, str) for c in node[2]) else node[2], node[1], _unit(node) or '')
     if t == 'a':
-        return 'A%s' % (node[2],)
+        return 'A%s%s' % (node[2], _opts(node).get('view') or '')
     return repr(node[1])
 
 
@@ -738,6 +792,7 @@ def _classes(spec, leaves, target, ctx):
         if spec['tz'] != 'Europe/London' and _jkind(spec['join']) == 'o' and len(idxs) >= 2:
             cls.append('zone_aware_stamps_off_utc_under_an_outer_join')
     cls += _round4_classes(spec, leaves, target)
+    cls += _round6_classes(spec, leaves, target)
     nt = len(idxs) >= 2 and (partial or disjoint) or bool(ctx is not None and ctx.filled)
     return dict(nt=bool(nt), cls=cls)
 
@@ -763,6 +818,56 @@ def _dict_keys(node):
     if t in ('dict', 'Dict'):
         return [k for k, c in node[1]] + [x for k, c in node[1] for x in _dict_keys(c)]
     return []
+
+
+def _cells(leaf):
+    """the float cells of a timeseries leaf, row by row (None = NaN); int64 Series / columns are left out"""
+    if leaf[0] == 's':
+        return list(leaf[2]) if leaf[3] == 'float' else []
+    intcols = _opts(leaf).get('intcols') or []
+    return [v for r in leaf[3] for j, v in enumerate(r) if j not in intcols]
+
+
+def _close(a, b):
+    import math
+    return (a is None and b is None) or (a is not None and b is not None and math.isclose(a, b, rel_tol=1e-5, abs_tol=1e-8))
+
+
+def _round6_classes(spec, leaves, target):
+    """labels of the input classes added for bug classes 21-29 of the builder brief (zone-aware stamps are labelled in _classes)"""
+    cls = []
+    method = spec['method']
+    # 22: a fill is asked for a stamp before the first / after the last observation of a column that has observations: the answer is NaN, not
+    # the observation at the other end
+    if method in ('ffill', 'bfill') and target:
+        edge = False
+        for l in leaves:
+            columns = [l[2]] if l[0] == 's' else [_col(l[3], j) for j in range(len(l[2]))]
+            for c in columns:
+                obs = [p for p, v in zip(l[1], c) if v is not None]
+                if obs and ((method == 'ffill' and target[0] < obs[0]) or (method == 'bfill' and target[-1] > obs[-1])):
+                    edge = True
+        if edge:
+            cls.append('fill_asked_beyond_the_first_or_last_observation')
+    # 27: two timeseries on the same stamps whose cells differ, all by less than the tolerances of np.isclose
+    near = False
+    for i, a in enumerate(leaves):
+        for b in leaves[i + 1:]:
+            if a[0] == b[0] and a[1] == b[1] and (a[0] == 's' or a[2] == b[2]):
+                x, y = _cells(a), _cells(b)
+                if len(x) == len(y) and x != y and all(_close(u, v) for u, v in zip(x, y)):
+                    near = True
+    if near:
+        cls.append('near_equal_operands')
+    vals = [v for l in leaves for v in _cells(l) if v is not None]
+    if any(v != 0 and abs(v) < 1e-8 for v in vals):
+        cls.append('tiny_cell_values')
+    # 29: a cell that is exactly 0.0 / -0.0 is an observation like any other
+    if any(v == 0 for v in vals):
+        cls.append('zero_cell_value')
+        if method in ('ffill', 'bfill'):
+            cls.append('zero_cell_value_under_a_fill')
+    return cls
 
 
 def _round4_classes(spec, leaves, target):
@@ -974,6 +1079,8 @@ def _presync_classes(spec, kids):
         cls.append('columns_given_at_call_time')
     if spec.get('default') is not None:
         cls.append('default=given')
+        if spec['default'] == 0:
+            cls.append('default=0.0')          # a falsy default is a default like any other
     if spec.get('sig') == 'defaults' and len(kids) < 4:
         cls.append('timeseries_in_an_unpassed_declared_default')
     if spec.get('sig') == 'kwonly' and any(_ts_leaves(c) for c in kids[1:]):
@@ -1203,7 +1310,29 @@ def _cmp_arrs(node, orig, res, n, method, what, path='result'):
         _cmp_array(node, res, n, method, where)
 
 
+def _mk_buffer(spec):
+    import numpy as np
+    if spec.get('buffer') is None:
+        return None
+    if spec['buffer'][0] == 'int':
+        return np.array(spec['buffer'][1], dtype='int64')
+    return np.array([_nan(x) for x in spec['buffer'][1]], dtype='float64')
+
+
 def run_arrays(spec):
+    _BUFFER[0] = _mk_buffer(spec)
+    try:
+        info = _run_arrays(spec)
+        if _BUFFER[0] is not None:
+            now = [None if x != x else x for x in _BUFFER[0].tolist()]
+            check(now == list(spec['buffer'][1]), '%s(<%s>, join=%s, method=%s) wrote into the buffer its operands are views of: now %s',
+                  spec['call'], _sketch(spec['tree']), spec['join'], spec['method'], now)
+        return info
+    finally:
+        _BUFFER[0] = None
+
+
+def _run_arrays(spec):
     from pyg_base import df_sync, df_reindex, df_index, presync
     tree, join, method, fn = spec['tree'], spec['join'], spec['method'], spec['call']
     objs = _build_case(spec)
@@ -1249,6 +1378,15 @@ def run_arrays(spec):
         cls.append('common_length_0')
     if method and any(x is None for l in leaves for x in l[3]):
         cls.append('fill_with_nan_cells')
+    if spec.get('buffer') is not None:
+        views = [l for l in leaves if l[2][0] >= 1]
+        if len(views) >= 2:
+            cls.append('views_of_one_buffer')
+        twins = [(a, b) for i, a in enumerate(views) for b in views[i + 1:] if a[2] == b[2] and a[2][0] >= 2 and a[3] != b[3]]
+        if twins:
+            cls.append('same_buffer_same_shape_other_strides')       # same start address, dtype and shape, different cells
+            if n is not None and any(n != a[2][0] for a, b in twins):
+                cls.append('same_buffer_same_shape_other_strides_resized')
     return dict(nt=len(set(lens)) >= 2, cls=cls)
 
 
@@ -1385,10 +1523,56 @@ def _flavour(draw, dupcols_allowed=False):
     dupcols  - (only where no column policy acts) frames may repeat a column label;
     intcol   - multi-column frames may have an int64 column"""
     return dict(units=draw(st.integers(0, 5)) == 0, dups=draw(st.integers(0, 3)) == 0, colpool='int' if draw(st.integers(0, 6)) == 0 else 'str',
-                dupcols=bool(dupcols_allowed) and draw(st.integers(0, 3)) == 0, intcol=draw(st.integers(0, 3)) == 0, leaves=[])
+                dupcols=bool(dupcols_allowed) and draw(st.integers(0, 3)) == 0, intcol=draw(st.integers(0, 3)) == 0, leaves=[],
+                near=draw(st.integers(0, 5)) == 0, tiny=draw(st.integers(0, 4)) == 0)
+
+
+_NUDGE = [1e-9, -1e-9, 2.5e-4, -2.5e-4]       # absolute moves of a cell that np.isclose (atol 1e-8, rtol 1e-5 on values of 100 .. 1300) takes for nothing
+
+
+def _revision(draw, leaf):
+    """the timeseries `leaf` once more, on the same stamps, with one / every float cell moved by less than a comparison tolerance"""
+    leaf = copy.deepcopy(leaf)
+    every = draw(st.booleans())
+    d = draw(st.sampled_from(_NUDGE))
+    at = draw(st.integers(0, 11))
+    intcols = _opts(leaf).get('intcols') or []
+    cells = [(i, None) for i in range(len(leaf[1]))] if leaf[0] == 's' else [(i, j) for i in range(len(leaf[1])) for j in range(len(leaf[2])) if j not in intcols]
+    cells = [(i, j) for i, j in cells if (leaf[2][i] if j is None else leaf[3][i][j]) is not None]
+    if leaf[0] == 's' and leaf[3] != 'float':
+        cells = []
+    if cells and not every:
+        cells = [cells[at % len(cells)]]
+    for i, j in cells:
+        if j is None:
+            leaf[2][i] = _nudged(leaf[2][i], d)
+        else:
+            leaf[3][i][j] = _nudged(leaf[3][i][j], d)
+    return leaf
+
+
+def _nudged(v, d):
+    return v + d if abs(v) >= 1 else v + d * 1e-6       # tiny cells move by 1e-15 / 2.5e-10: still tiny, still another number
+
+
+def _make_tiny(draw, leaf):
+    """the float cells of a leaf scaled to the order 1e-10 .. 1e-9 (unique as before), about one in five of them exactly 0.0 / -0.0"""
+    intcols = _opts(leaf).get('intcols') or []
+    if leaf[0] == 's':
+        if leaf[3] != 'float':
+            return leaf
+        z = _mask(draw, len(leaf[2]), 'some')
+        leaf[2] = [None if v is None else ((-0.0 if i % 2 else 0.0) if z[i] else v * 1e-12) for i, v in enumerate(leaf[2])]
+        return leaf
+    z = _mask(draw, len(leaf[3]) * len(leaf[2]), 'some')
+    w = len(leaf[2])
+    leaf[3] = [[v if (v is None or j in intcols) else ((-0.0 if (i + j) % 2 else 0.0) if z[i * w + j] else v * 1e-12) for j, v in enumerate(r)] for i, r in enumerate(leaf[3])]
+    return leaf
 
 
 def _finish_leaf(draw, state, leaf):
+    if state.get('tiny') and draw(st.integers(0, 2)) == 0:
+        leaf = _make_tiny(draw, leaf)
     if state.get('units'):
         leaf = leaf[:4] + [dict(_opts(leaf), unit=draw(st.sampled_from(_UNITS)))]
     state.setdefault('leaves', []).append(leaf)
@@ -1402,6 +1586,11 @@ def _ts_leaf(draw, state, kinds):
     earlier = state.get('leaves') or []
     if state.get('dups') and earlier and draw(st.integers(0, 2)) == 0:
         leaf = copy.deepcopy(earlier[draw(st.integers(0, len(earlier) - 1))])       # the same timeseries once more
+        state['prev'].append(list(leaf[1]))
+        earlier.append(leaf)
+        return leaf
+    if state.get('near') and earlier and draw(st.integers(0, 1)) == 0:
+        leaf = _revision(draw, earlier[draw(st.integers(0, len(earlier) - 1))])      # an earlier timeseries revised by less than a tolerance
         state['prev'].append(list(leaf[1]))
         earlier.append(leaf)
         return leaf
@@ -1647,6 +1836,17 @@ def _arr_leaf(draw, state, kinds):
     w = draw(st.sampled_from([0, 0, 0, 1, 2, 3]))      # 0 = 1-d
     dtype = draw(st.sampled_from(['float', 'float', 'float', 'int']))
     shape = [n] if w == 0 else [n, w]
+    if state.get('buffer') is not None:
+        # every array of the case is a view that starts at the first element of ONE buffer; two views in three repeat the shape of the
+        # previous one and walk the buffer differently (a[:n] vs a[::2][:n], a block vs the transpose of the block the other way round)
+        layouts = ['c', 's2', 's3'] + (['t'] if w >= 2 else [])
+        last = state.get('last_view')
+        if last is not None and draw(st.integers(0, 2)) != 0:
+            shape = list(last[0])
+            layouts = [x for x in ['c', 's2', 's3'] + (['t'] if len(shape) == 2 and shape[1] >= 2 else []) if x != last[1]]
+        layout = draw(st.sampled_from(layouts))
+        state['last_view'] = (shape, layout)
+        return ['a', state['buffer'][0], shape, _view_cells(state['buffer'][1], shape, layout), {'view': layout}]
     cells = n * max(w, 1)
     if dtype == 'int':
         flat = [(k + 1) * 100 + i for i in range(cells)]
@@ -1663,8 +1863,20 @@ def _arrays_case(draw, maxlen=6):
     method = draw(st.sampled_from([None, None, 'ffill', 'bfill']))
     state = dict(k=0, prev=[], maxlen=maxlen)
     types = ['list'] if fn == 'presync' else ['list', 'list', 'dict', 'Dict'] + (['tuple'] if fn == 'df_sync' else [])
-    tree = draw(_container(state, 1, 3, None, _arr_leaf, types, 1, 4))
+    buffer = None
+    if draw(st.integers(0, 7)) == 0:
+        # one case in eight: all arrays are views of one buffer (see _arr_leaf)
+        size = maxlen * 9
+        if draw(st.integers(0, 3)) == 0:
+            buffer = ['int', [7000 + i for i in range(size)]]
+        else:
+            m = _mask(draw, size, draw(st.sampled_from(['some', 'none'])))
+            buffer = ['float', [None if m[i] else 7000.5 + i for i in range(size)]]
+        state['buffer'] = buffer
+    tree = draw(_container(state, 1, 3, None, _arr_leaf, types, 2 if buffer else 1, 4))
     spec = dict(kind='arrays', call=fn, tree=tree, join=join, method=method)
+    if buffer:
+        spec['buffer'] = buffer
     if fn == 'presync':
         spec['npos'] = draw(st.integers(0, len(tree[1])))
     return _repair_f14(spec)
@@ -1727,6 +1939,26 @@ def _session_case(draw):
                 k = [x for x in ['i', 'o', 'l', 'r'] if x != last[1]][draw(st.integers(0, 2))]
                 join = _SPELL[k][draw(st.booleans())]
         last = (top, k) if fn != 'presync' else None
+        edit = None
+        editable = [i for i in sel if pool[i][0] in ('s', 'f') and _editable_cells(pool[i])]
+        if calls and editable and draw(st.integers(0, 15)) == 0:
+            # between two calls the caller writes ONE cell of one of his own operands in place (a value -> another value / NaN, NaN -> a value);
+            # this call and all later ones must see the operand as it is now. Mostly the operand took part in the previous call as well
+            both = [i for i in editable if i in calls[-1]['sel']]
+            cand = both if (both and draw(st.integers(0, 3)) != 0) else editable
+            i = cand[draw(st.integers(0, len(cand) - 1))]
+            old = pool[i]
+            new = copy.deepcopy(old)
+            cells = _editable_cells(old)
+            r, j = cells[draw(st.integers(0, len(cells) - 1))]
+            now = old[2][r] if j is None else old[3][r][j]
+            value = None if (now is not None and draw(st.integers(0, 2)) == 0) else 5000.25 + 10 * len(calls) + r
+            if j is None:
+                new[2][r] = value
+            else:
+                new[3][r][j] = value
+            pool[i] = new
+            edit = [old, new]
         if fn == 'presync':
             tree = ['list', [pool[i] for i in sel]]
             if shared_deco:
@@ -1756,8 +1988,37 @@ def _session_case(draw):
             c = dict(call=fn, tree=tree, join=join, method=method)
             if fn == 'df_sync':
                 c['columns'] = draw(st.sampled_from(['ij', 'oj', False]))
-        calls.append(dict(sel=sel, call=_repair(c)))
+        calls.append(dict(sel=sel, call=_repair(c), **(dict(edit=edit) if edit else {})))
     return dict(calls=calls, share_index=draw(st.booleans()), share_containers=share_containers, tz=draw(_TZS))
+
+
+def _editable_cells(leaf):
+    """(row, column) of the float cells of a Series / frame leaf (column None for a Series); int64 data is left alone"""
+    if leaf[0] == 's':
+        return [(r, None) for r in range(len(leaf[1]))] if leaf[3] == 'float' else []
+    intcols = _opts(leaf).get('intcols') or []
+    return [(r, j) for r in range(len(leaf[1])) for j in range(len(leaf[2])) if j not in intcols]
+
+
+def _apply_edit(old, new):
+    """the caller edits his operand in place: the object built for the leaf spec `old` gets the cells of `new` written into it and is from now on the
+    object of `new`; the containers that hold it (built once per session with share_containers) stay the same objects and are re-keyed likewise"""
+    ko, kn = json.dumps(old), json.dumps(new)
+    obj = _OBJECTS[0].pop(ko, None)
+    if obj is None:
+        return False                      # the operand was not handed to any call yet: it will be built as it is now
+    for r, j in _editable_cells(old):
+        a, b = (old[2][r], new[2][r]) if j is None else (old[3][r][j], new[3][r][j])
+        if a != b:
+            if j is None:
+                obj.iloc[r] = _nan(b)
+            else:
+                obj.iloc[r, j] = _nan(b)
+    _OBJECTS[0].setdefault(kn, obj)
+    if _CONTAINERS[0] is not None:
+        for key in [k for k in _CONTAINERS[0] if ko in k]:
+            _CONTAINERS[0].setdefault(key.replace(ko, kn), _CONTAINERS[0].pop(key))
+    return True
 
 
 def run_session(spec):
@@ -1771,7 +2032,15 @@ def run_session(spec):
         trees, vias, sigs, r4 = [], [], set(), set()
         again = other_policy = False
         before = None
+        edited = edited_seen = False
         for c in spec['calls']:
+            if c.get('edit'):
+                edited = True
+                if _apply_edit(c['edit'][0], c['edit'][1]):
+                    edited_seen = True
+                ko, kn = json.dumps(c['edit'][0]), json.dumps(c['edit'][1])
+                trees = [t.replace(ko, kn) for t in trees]                # the containers handed in earlier now hold the edited operand
+                before = (before[0].replace(ko, kn), before[1]) if before is not None else None
             sub = dict(c['call'], share_index=False, tz=spec.get('tz'))
             _SHARED[0] = shared             # the index objects too live for the whole session (objects are cached, so only new leaves ask)
             key = json.dumps(sub['tree'])
@@ -1816,6 +2085,10 @@ def run_session(spec):
                 cls.append('decorator_used_again_after_an_override')
         if len(sigs) >= 2:
             cls.append('one_decorator_applied_to_two_functions')
+        if edited:
+            cls.append('operand_edited_in_place_between_calls')
+        if edited_seen:
+            cls.append('operand_edited_in_place_after_it_was_aligned')        # an earlier call of the session has seen the object before the edit
         return dict(nt=bool(rel - {'same_operands_again'}), cls=cls)
     finally:
         _OBJECTS[0] = None
@@ -1825,7 +2098,7 @@ def run_session(spec):
         _DECO[0] = None
 
 
-_R4_IN_SESSION = {'mixed_datetime_units', 'same_object_passed_twice', 'numeric_column_labels', 'int_column_in_frame', 'numeric_dict_keys'}
+_R4_IN_SESSION = {'zone_aware_stamps', 'near_equal_operands', 'tiny_cell_values', 'zero_cell_value', 'mixed_datetime_units', 'same_object_passed_twice', 'numeric_column_labels', 'int_column_in_frame', 'numeric_dict_keys'}
 
 
 # ============================================================================================ registration
@@ -1834,7 +2107,9 @@ _RULE_TS = ('timeseries = float Series (NaN sprinkled / none / all NaN), int Ser
             'single-column frames, each on a sorted subset (contiguous run, arbitrary subset, empty, or derived from an earlier index) of a 12-stamp irregular axis; in ~60% of the cases EVERY index derives from the first one by one fast-path fingerprint (twin = same length, same first/last stamp, different interior; same length; same endpoints; same first/last k stamps; proper subset / superset; copy), and explicit targets share it half of the time; '
             'cell values unique per object/column/stamp; in half of the cases timeseries with equal stamps share ONE index object (a third of the later series repeat the stamps of an earlier, non-adjacent one; half of the trees whose last series does so are aligned with a right join); '
             'in a minority of cases each: the DatetimeIndex resolutions (s/ms/us/ns) differ between operands and target; a timeseries is repeated verbatim (ONE object handed in several times, or equal distinct objects; left / right joins when the first / last one is the repeat); '
-            'all column labels are integers; a frame has an int64 column; a frame repeats a column label (only where no column policy acts); dicts are keyed by integers; ')
+            'all column labels are integers; a frame has an int64 column; a frame repeats a column label (only where no column policy acts); dicts are keyed by integers; '
+            'a timeseries holds cells of the order 1e-9 and exact zeros; a timeseries is an earlier one revised by less than a comparison tolerance (1e-9 / 2.5e-4 on one or every cell); '
+            'every index of the case lies in one time zone (Asia/Tokyo, US/Eastern, Europe/London); ')
 
 SUBS = [
     Sub('sync', lambda tier: _sync_case(), run_sync, quick=1600, thorough=12000,
@@ -1852,14 +2127,16 @@ SUBS = [
                                  'mixed_datetime_units': 0.025, 'same_object_passed_twice': 0.02, 'equal_operands_distinct_objects': 0.03,
                                  'left_right_join_with_a_repeated_object': 0.004, 'operand_is_also_the_target': 0.03, 'numeric_column_labels': 0.02, 'duplicate_column_labels': 0.008,
                                  'int_column_in_frame': 0.015, 'numeric_dict_keys': 0.07, 'index_length_equals_member_count': 0.03, 'explicit_index_as_long_as_the_list': 0.013,
-                                 'keyword_call': 0.08}),
+                                 'keyword_call': 0.08,
+                                 'fill_asked_beyond_the_first_or_last_observation': 0.045, 'near_equal_operands': 0.015, 'tiny_cell_values': 0.024, 'zero_cell_value': 0.019, 'zero_cell_value_under_a_fill': 0.009}),
     Sub('asof', lambda tier: _asof_case(), run_sync, quick=1600, thorough=12000,
         rule=_RULE_TS + 'one bare object, df_reindex(obj, explicit DatetimeIndex / Series as index / ij / oj, method) with method mostly ffill/bfill; '
              'same oracle. non-trivial = a cell filled from another stamp',
         floor=0.1, class_floors={'method=ffill': 0.15, 'method=bfill': 0.15, 'multi_column_frame': 0.1, 'as_of_filled_cell': 0.1,
                                   'vs_target:same_span_same_length_different_interior': 0.05, 'vs_target:nested_chain': 0.1,
                                   'vs_target:same_length_different_stamps': 0.05, 'vs_target:same_endpoints_different_length': 0.03,
-                                  'mixed_datetime_units': 0.02, 'numeric_column_labels': 0.02, 'duplicate_column_labels': 0.006, 'int_column_in_frame': 0.006}),
+                                  'mixed_datetime_units': 0.02, 'numeric_column_labels': 0.02, 'duplicate_column_labels': 0.006, 'int_column_in_frame': 0.006,
+                                  'zone_aware_stamps': 0.08, 'fill_asked_beyond_the_first_or_last_observation': 0.09, 'tiny_cell_values': 0.013, 'zero_cell_value': 0.01, 'zero_cell_value_under_a_fill': 0.01}),
     Sub('presync', lambda tier: _presync_case(), run_presync, quick=1200, thorough=8000,
         rule=_RULE_TS + 'f returns its arguments; f is declared as f(p0..p3), f(p0, *rest), f(p0, **kw), f(*a, **kw), f(p0, *, p1, p2, p3) or with declared defaults that are / hold timeseries (which must reach f untouched and leave the common index alone); 1-4 arguments (each a leaf or a tree to depth 2) passed positionally / by keyword / mixed; '
              'presync configured by constructor, by properties (.oj.ffill), by call-time join=/method= (and columns= against another constructor policy), index="p<i>", or an operand as index; columns=False with any tree, '
@@ -1869,7 +2146,8 @@ SUBS = [
                                   'sig=kwonly': 0.025, 'sig=defaults': 0.02, 'timeseries_in_an_unpassed_declared_default': 0.02, 'timeseries_through_keyword_only_parameter': 0.018,
                                  'columns_given_at_call_time': 0.1, 'same_object_passed_twice': 0.02, 'left_right_join_with_a_repeated_object': 0.005,
                                  'operand_is_also_the_target': 0.012, 'mixed_datetime_units': 0.02, 'explicit_index_as_long_as_the_list': 0.004, 'duplicate_column_labels': 0.004,
-                                 'numeric_dict_keys': 0.04}),
+                                 'numeric_dict_keys': 0.04,
+                                 'zone_aware_stamps': 0.08, 'fill_asked_beyond_the_first_or_last_observation': 0.045, 'near_equal_operands': 0.015, 'tiny_cell_values': 0.024, 'zero_cell_value': 0.02, 'zero_cell_value_under_a_fill': 0.008}),
     Sub('presync_cols', lambda tier: _presync_case(True), run_presync_cols, quick=1000, thorough=6000,
         rule=_RULE_TS + 'default column mode with frames among the arguments: f records every call; expected one call per common column (the shared columns '
              'when all multi-column frames agree, else the ij/oj/lj/rj column set), each call seeing every multi-column frame as that column (Series on the '
@@ -1878,22 +2156,29 @@ SUBS = [
                                   'same_span_same_length_different_interior': 0.04, 'twins_under_ij_oj': 0.01, 'same_length_different_stamps': 0.04, 'nested_chain': 0.03,
                                   'default=given': 0.13, 'default_shown_for_a_lacking_column': 0.024, 'columns_given_at_call_time': 0.1, 'numeric_column_labels': 0.03,
                                  'sig=kwonly': 0.025, 'sig=defaults': 0.02, 'timeseries_in_an_unpassed_declared_default': 0.02, 'int_column_in_frame': 0.02,
-                                 'mixed_datetime_units': 0.02, 'same_object_passed_twice': 0.02, 'operand_is_also_the_target': 0.016}),
+                                 'mixed_datetime_units': 0.02, 'same_object_passed_twice': 0.02, 'operand_is_also_the_target': 0.016,
+                                 'zone_aware_stamps': 0.08, 'default=0.0': 0.045, 'fill_asked_beyond_the_first_or_last_observation': 0.05, 'near_equal_operands': 0.015, 'tiny_cell_values': 0.027, 'zero_cell_value': 0.025, 'zero_cell_value_under_a_fill': 0.008}),
     Sub('session', lambda tier: _session_case(), run_session, quick=800, thorough=6000,
         rule=_RULE_TS + '3-4 Series / frames (now and then a small list / dict of them, or one of them twice) built ONCE, then 2-4 calls of df_index / df_reindex / df_sync / presync(f) on ordered selections of those same objects (half of them a '
              'prefix or an extension of the previous selection), mostly under one join policy; every call judged by the oracle of sync / presync, so a result may not depend on '
              'what was aligned before. In half of the sessions the list / dict containers are built once too and the same container object goes to several calls (a repeat of the previous '
              'operands half of the time under another policy); the presync calls of 3 sessions in 4 go through ONE decorator object presync(index=, method=, columns=False) applied to one function '
              'per shape, reached plainly, by call-time join=/method=, or through .oj/.ffill properties - mostly followed by a plain call that must show the policy the object was built with. '
+             'In about one session in seven the caller writes one cell of an operand in place between two calls (mostly an operand the previous call has aligned): the later calls must show the new cell. '
              'non-trivial = two consecutive calls whose operand lists are prefix-related',
         floor=0.2, class_floors={'operands_prefix_of_previous_call': 0.15, 'operands_extend_previous_call': 0.1, 'different_entry_points_share_operands': 0.2, 'one_join_policy_throughout': 0.2,
                                  'same_container_object_passed_again': 0.05, 'same_container_object_again_under_another_policy': 0.012, 'one_decorator_object_for_several_calls': 0.06, 'decorator_used_again_after_an_override': 0.045,
                                  'one_decorator_applied_to_two_functions': 0.014, 'mixed_datetime_units': 0.045, 'numeric_column_labels': 0.025, 'numeric_dict_keys': 0.025,
-                                 'same_object_passed_twice': 0.14, 'int_column_in_frame': 0.018}),
+                                 'same_object_passed_twice': 0.14, 'int_column_in_frame': 0.018,
+                                 'zone_aware_stamps': 0.05, 'near_equal_operands': 0.03, 'tiny_cell_values': 0.028, 'zero_cell_value': 0.02,
+                                 'operand_edited_in_place_between_calls': 0.05, 'operand_edited_in_place_after_it_was_aligned': 0.045}),
     Sub('arrays', lambda tier: _arrays_case(6 if tier == 'quick' else 9), run_arrays, quick=2000, thorough=12000,
         rule='trees (depth <= 3) of bare numpy arrays: 1-d and 2-d (1-3 columns), 0-6 rows (0-9 thorough), float64 with NaN / int64, mixed with scalars; '
              'df_sync / df_reindex / df_index / presync(columns=False) with ij,oj,lj,rj and method None/ffill/bfill. Oracle: common length = min/max/first/last, '
              'every array = its last n rows or NaN rows in front, per-column fill, shape and trailing dimensions kept, inputs unchanged. '
+             'In one case in eight all arrays are views of one buffer that start at its first element with different strides (contiguous, every 2nd / 3rd element or row, transposed block), '
+             'two views in three repeating the shape of the previous one; the buffer must stay unwritten. '
              'non-trivial = at least two different lengths',
-        floor=0.3, class_floors={'truncated': 0.2, 'padded': 0.2, '2d': 0.2, 'empty_array': 0.05}),
+        floor=0.3, class_floors={'truncated': 0.2, 'padded': 0.2, '2d': 0.2, 'empty_array': 0.05,
+                                 'views_of_one_buffer': 0.02, 'same_buffer_same_shape_other_strides': 0.015, 'same_buffer_same_shape_other_strides_resized': 0.0035}),
 ]
